@@ -1,6 +1,7 @@
 //! `mvcore <ID> [--tier quick|thorough] [--replay FILE]` – bounded-exhaustive checks that only
 //! need `mos-core` (parser, code generator, formatter, listing, binary writer).
 
+mod cert;
 mod probe;
 mod textspace;
 mod props;
